@@ -326,6 +326,38 @@ def run_case(spec, sub=None):
             **common, max_repeats=spec["max_repeats"], parallel=False, seed=7
         )
 
+    # the name of an automatically named cache directory (directory=True) is
+    # a function of the VALUE of the path relevant options: two equally
+    # configured optimizers - one with literal option strings (shared objects),
+    # one whose strings were made at run time, as when options come from a
+    # command line or a config file - must name the same directory, or the
+    # next session finds none of the stored contractions
+    def opts_pair():
+        k1 = "subtree_size"
+        a = dict(reconf_opts={k1: 6}, slicing_reconf_opts={"target_size": 64, "reconf_opts": {k1: 6}})
+        b = dict(
+            reconf_opts={"".join(["subtree", "_size"]): 6},
+            slicing_reconf_opts={"".join(["target_", "size"]): 64, "reconf_opts": {"".join(["subtree_", "size"]): 6}},
+        )
+        c_ = dict(methods=[COUNT], optlib="random", max_repeats=1, parallel=False, minimize=spec["minimize"])
+        return (
+            ctg.ReusableHyperOptimizer(**a, **c_).auto_hash_path_relevant_opts(),
+            ctg.ReusableHyperOptimizer(**b, **c_).auto_hash_path_relevant_opts(),
+        )
+
+    viol0 = []
+    if spec["kind"] == "hyper" and spec["directory"]:
+        ok_, pair = guarded(opts_pair)
+        if not ok_:
+            viol0.append(f"auto_hash_path_relevant_opts raised {pair}")
+        elif pair[0] != pair[1]:
+            viol0.append(
+                "two equally configured ReusableHyperOptimizers (option strings as literals vs made at run time) "
+                f"name different automatic cache directories: opts{pair[0][:12]}.. vs opts{pair[1][:12]}.."
+            )
+    if viol0:
+        return Outcome(viol0, False, cls)
+
     def score_of(tree):
         if spec["kind"] == "hyper":
             return tree.get_score(spec["minimize"])
